@@ -94,6 +94,7 @@ func init() {
 			{Name: "call-args-at-outer-level", File: pp, Old: "func (p *parser) parseCallOrConversion(fun ast.Expr, isCmd bool) *ast.CallExpr {", New: "func (p *parser) parseCallOrConversion(fun ast.Expr, isCmd bool) *ast.CallExpr {\n\tp.exprLev--\n\tdefer func() { p.exprLev++ }()", Expect: "expr-level/parseCallOrConversion parserhs"},
 			{Name: "if-header-level-kept", File: pp, Old: "\touter := p.exprLev\n\tp.exprLev = -1\n", New: "\touter := p.exprLev\n", Expect: "expr-level/parseIfHeader parsesimplestmt"},
 			{Name: "scanner-number-edit", File: "scanner/scanner.go", Old: "\tif e := lower(s.ch); e == 'e' || e == 'p' {", New: "\tif e := lower(s.ch); e == 'e' || e == 'p' || e == 'd' {", Expect: "deviation/Scanner.scanNumber"},
+			{Name: "branch-needs-semicolon", File: pp, Old: "\tif p.tok != token.SEMICOLON && p.tok != token.RBRACE { // XGo: goto command", New: "\tif p.tok != token.SEMICOLON { // XGo: goto command", Expect: "stmt-end/parser.parseBranchStmt:p.tok"},
 			{Name: "stmt-drops-select", File: pp, Old: "\tcase token.SELECT:\n\t\ts = p.parseSelectStmt()", New: "\tcase token.ILLEGAL:\n\t\ts = p.parseSelectStmt()", Expect: "dispatch/parseStmt SELECT"},
 		},
 	})
@@ -240,6 +241,59 @@ func runC14(c *core.Check) {
 	}
 	c.Floor("expr-level", 18)
 
+	// ---------- (4b) statement ends: Go lets the last statement of a block end at `}` without a semicolon
+	// (go/parser.expectSemi accepts `)` and `}`); an XGo-specific look-ahead that asks "does the statement go on?"
+	// by testing for SEMICOLON alone misreads `{ break }`, `{ return }`, …
+	nEnd := 0
+	for _, fd := range core.AllFuncDecls(x) {
+		if fd.Body == nil || !callsMethod(fd, "expectSemi") || strings.Contains(core.FuncName(fd), "Header") {
+			continue
+		}
+		if strings.Contains(nodeText(fd.Body), "p.exprLev=") || strings.Contains(nows(nodeText(fd.Body)), "p.exprLev=") {
+			continue // statements with a header (if/for/switch): `;` there separates the header clauses, `{` follows
+		}
+		ast.Inspect(fd.Body, func(n ast.Node) bool {
+			is, ok := n.(*ast.IfStmt)
+			if !ok {
+				return true
+			}
+			conj := conjuncts(is.Cond)
+			for _, cj := range conj {
+				be, ok := ast.Unparen(cj).(*ast.BinaryExpr)
+				if !ok || be.Op != token.NEQ {
+					continue
+				}
+				if k := constOf(x.TypesInfo, be.Y); k == nil || k.Name() != "SEMICOLON" {
+					continue
+				}
+				subj := core.ExprStr(be.X)
+				if subj != "p.tok" && subj != "next" {
+					continue
+				}
+				// only look-aheads that decide between "statement ends here" and an XGo continuation: the body
+				// re-parses (unget) or parses more of the same statement
+				if !strings.Contains(nodeText(is.Body), "unget(") && !strings.Contains(nodeText(is.Body), "parse") {
+					continue
+				}
+				nEnd++
+				hasBrace := false
+				for _, c2 := range conj {
+					if b2, ok := ast.Unparen(c2).(*ast.BinaryExpr); ok && b2.Op == token.NEQ && core.ExprStr(b2.X) == subj {
+						if k := constOf(x.TypesInfo, b2.Y); k != nil && k.Name() == "RBRACE" {
+							hasBrace = true
+						}
+					}
+				}
+				key := core.FuncName(fd) + ":" + subj
+				c.Decide(hasBrace, "stmt-end", key, is.Pos(), "stops at `}` as well as at `;`",
+					"parser."+core.FuncName(fd)+" decides that the statement continues whenever the next token is not a semicolon; Go allows the last statement of a block to be followed directly by `}` (`if x { break }`), which is then parsed as an XGo command/identifier instead of the Go statement")
+			}
+			return true
+		})
+	}
+	c.Analysed("statement_end_lookaheads", nEnd)
+	c.Floor("stmt-end", 2)
+
 	// ---------- (5) the token stream: the scanner agrees with go/scanner on Go lexemes (rules shared with C16)
 	scannerAgreement(c, prog, false)
 }
@@ -293,4 +347,25 @@ func precTable(pk *packages.Package) map[string]int {
 		return nil
 	}
 	return out
+}
+
+func callsMethod(fd *ast.FuncDecl, name string) bool {
+	found := false
+	ast.Inspect(fd.Body, func(n ast.Node) bool {
+		if call, ok := n.(*ast.CallExpr); ok {
+			if sel, ok := call.Fun.(*ast.SelectorExpr); ok && sel.Sel.Name == name {
+				found = true
+			}
+		}
+		return !found
+	})
+	return found
+}
+
+func conjuncts(e ast.Expr) []ast.Expr {
+	e = ast.Unparen(e)
+	if be, ok := e.(*ast.BinaryExpr); ok && be.Op == token.LAND {
+		return append(conjuncts(be.X), conjuncts(be.Y)...)
+	}
+	return []ast.Expr{e}
 }
